@@ -591,7 +591,8 @@ def oracle_run(job, lines):
     fails = []
     stats = {"solutions": 0, "stored": 0, "unstored": 0, "approx": 0, "optimized": 0, "snapshots": 0, "solves": 0,
              "mixed_sets": 0, "stored_worse": 0, "ended": False, "endpoint_mismatch": 0, "maxsols": 0, "stored_equal": 0,
-             "stored_inf_deferred": 0, "approx_stored": 0, "clears": 0, "planner_clears": 0, "regress_after_clear": 0, "approx_only_solves": 0}
+             "stored_inf_deferred": 0, "approx_stored": 0, "clears": 0, "planner_clears": 0, "regress_after_clear": 0, "approx_only_solves": 0,
+             "cfg_applied": 0, "cfg_rejected": 0, "fromdata": 0, "fromdata_unsupported": 0, "newqueries": 0}
     if not lines or not lines[0].startswith("run "):
         return [("crash", "no output from the run")], stats, []
     hdr = parse_flags(lines[0])
@@ -610,6 +611,24 @@ def oracle_run(job, lines):
             continue
         if ln.startswith("plannerclear "):
             stats["planner_clears"] += 1     # planner->clear(): the problem definition keeps what it has
+            continue
+        if ln.startswith("cfg "):
+            stats["cfg_applied" if ln.endswith("ok=1") else "cfg_rejected"] += 1
+            continue
+        if ln.startswith("fromdata "):
+            stats["fromdata" if "unsupported" not in ln else "fromdata_unsupported"] += 1
+            continue
+        if ln.startswith("newquery "):
+            # a NEW problem definition on the same planner instance (another objective and / or the reversed query):
+            # its solution set starts empty, its threshold, admissible bound and cost order are its own
+            nq = parse_flags(ln)
+            kind = nq["obj"]
+            better = (lambda a, b: a > b) if kind in MAXIMIZING else (lambda a, b: a < b)
+            thr = bits2f(nq["thr"])
+            qbound = bits2f(nq["qbound"])
+            stats["newqueries"] += 1
+            det = {}
+            prev_top, before_clear = None, None
             continue
         if ln.startswith("clear "):
             # the user dropped all solutions (clearSolutionPaths()); indices restart at 0
@@ -736,17 +755,64 @@ def oracle_run(job, lines):
     return fails, stats, orders
 
 
+
+# ---------------------------------------------------------------------------------- planner parameters / reuse histories
+ROADMAP = ["PRM", "PRMstar", "LazyPRM", "LazyPRMstar", "SPARS", "SPARStwo"]     # multi-query planners: a new problem definition without clear()
+FROMDATA = ["PRM", "PRMstar", "LazyPRM", "LazyPRMstar"]                          # have the public constructor from PlannerData
+# parameters that are not driven: thread / planner counts (machine load), strings, thresholds that are the objective's business
+CFG_SKIP = {"num_threads", "num_planners", "planners", "cost_threshold", "max_hybrid_paths"}
+# hand-picked non-default values for numeric parameters (unit box, budgets of a few hundred to a few thousand evaluations)
+CFG_VALUES = {
+    "range": ["0.05", "0.25", "2"], "goal_bias": ["0", "0.3", "0.9"], "rewire_factor": ["1.0", "1.5", "2.0"], "prune_threshold": ["0", "0.01", "0.6"],
+    "number_sampling_attempts": ["10"], "samples_per_batch": ["1", "13", "400"], "batch_size": ["1", "13", "400"], "epsilon": ["0", "0.01", "0.1", "2"],
+    "rejection_variant": ["1", "2", "3"], "rejection_variant_alpha": ["0", "0.5"], "max_nearest_neighbors": ["8", "3"],
+    "ordering_batch_size": ["1", "7", "100"], "num_samples": ["60", "900"], "radius_multiplier": ["0.6", "1", "2.5"], "set_max_num_goals": ["1", "3"],
+    "initial_inflation_factor": ["1", "50"], "inflation_scaling_parameter": ["1", "100"], "truncation_scaling_parameter": ["1", "50"],
+    "stretch_factor": ["1.5", "2.2"], "sparse_delta_fraction": ["0.1", "0.5"], "dense_delta_fraction": ["0.01", "0.0005"],
+    "prune_threshold_as_fractional_cost_change": ["0", "0.3"], "temp_change_factor": ["0.05", "0.5"], "init_temperature": ["1", "1e-6"],
+    "frontier_threshold": ["0.2"], "frontier_node_ratio": ["0.5", "1"], "selection_radius": ["0.05", "0.3"], "pruning_radius": ["0.01", "0.1"],
+    "max_failures": ["100", "500"], "set_start_goal_pruning": ["1", "50"],
+}
+
+
+def load_params(ck, hbin):
+    """planner -> [(name, default, [non-default values])] read from the REAL planners' ParamSets (so a parameter added to a
+    planner is driven without touching this file: booleans are flipped, known numeric ones take the hand-picked values)."""
+    names = list(PLANNERS) + list(EXTRA_PLANNERS)
+    out, rc, err = ck.run_bin(hbin, ["solnrun"] + ["params " + n for n in names], env=RUN_ENV)
+    table = {}
+    for ln in out or []:
+        t = ln.split()
+        if len(t) < 2 or t[0] != "params":
+            continue
+        ps = []
+        for kv in t[2:]:
+            name, _, rest = kv.partition("=")
+            default, _, rng_s = rest.partition("|")
+            if name in CFG_SKIP:
+                continue
+            if rng_s == "0,1":
+                vals = ["0" if default == "1" else "1"]
+            else:
+                vals = [v for v in CFG_VALUES.get(name, []) if v != default]
+            if vals:
+                ps.append((name, default, vals, rng_s == "0,1"))
+        table[t[1]] = ps
+    return table
+
+
 INFORMED_TREES = ["BITstar", "ABITstar", "AITstar", "EITstar", "EIRMstar"]
 
 
-def make_jobs(ck, rng):
+def make_jobs(ck, rng, params=None):
     jobs = []
     nrep = 1 if ck.tier == "quick" else 6
     g_small = f2bits(0.05)
+    params = params or {}
 
-    def job(planner, obj, field, thr, env, dim, seed, evals, solves, gthr, clear=0, hist=None):
+    def job(planner, obj, field, thr, env, dim, seed, evals, solves, gthr, clear=0, hist=None, cfg=None, tag=None):
         jobs.append({"planner": planner, "obj": obj, "field": field, "thr": thr, "env": env, "dim": dim, "seed": seed, "evals": evals,
-                     "solves": solves, "gthr": gthr, "clear": clear, "hist": hist})
+                     "solves": solves, "gthr": gthr, "clear": clear, "hist": hist or (str(clear) if cfg else None), "cfg": cfg, "tag": tag})
     for rep in range(nrep):
         for planner, (evals, general) in PLANNERS.items():
             r = rng.fork("job-%s-%d" % (planner, rep))
@@ -804,12 +870,55 @@ def make_jobs(ck, rng):
                 hist=r.choice(["s", "k"]))
             job(planner, "len", 0, "def", 8, 2, r.range(1, 10 ** 6), evals, 2, g_small, hist="c")
             job(planner, "dublen", 0, "def", r.choice([0, 1]), 3, r.range(1, 10 ** 6), min(evals, 300), 2, f2bits(0.1), hist="c")
+        # ---- non-default planner parameters and re-use histories (seeded C04-s6 / C04-s7: defects that need a roadmap loaded
+        # from PlannerData, an objective swapped between queries, or `delay_collision_checking=0`)
+        for planner in list(PLANNERS) + list(EXTRA_PLANNERS):
+            evals, general = PLANNERS.get(planner, (EXTRA_PLANNERS.get(planner), planner in ("PRM", "LazyPRM")))
+            r = rng.fork("cfg-%s-%d" % (planner, rep))
+            ev = max(evals // 4, 300) if evals < 20000 else evals // 4
+            ps = params.get(planner, [])
+            bools = [p for p in ps if p[3]]
+            nums = [p for p in ps if not p[3]]
+            # (a) every boolean parameter flipped on its own
+            for name, default, vals, _b in bools:
+                obj = "len" if not general or r.chance(2, 3) else r.choice(["sci", "work", "multi"])
+                job(planner, obj, r.range(1, 2), r.choice(["def", "def", "inf"]), r.choice([0, 1, 3, 4]), 2, r.range(1, 10 ** 6), ev, 2, g_small,
+                    hist=r.choice(["c", "c", "s"]), cfg="%s=%s" % (name, vals[0]), tag="cfg-bool")
+            # (b) numeric parameters one at a time (quick: two of them per planner), (c) a random mix of everything
+            pick = list(nums)
+            r.shuffle(pick)
+            for name, default, vals, _b in (pick[:2] if ck.tier == "quick" else pick):
+                job(planner, "len", 0, "def", r.choice([0, 1, 3, 4]), 2, r.range(1, 10 ** 6), ev, 2, g_small, hist="c",
+                    cfg="%s=%s" % (name, r.choice(vals)), tag="cfg-num")
+            for _ in range(1 if ck.tier == "quick" else 3):
+                mix = ["%s=%s" % (n, r.choice(v)) for n, _d, v, b in ps if r.chance(1, 3 if b else 4)]
+                if mix:
+                    obj = "len" if not general or r.chance(1, 2) else r.choice(["sci", "work", "multi", "minimax"])
+                    job(planner, obj, r.range(1, 2), "def", r.choice([0, 1, 3, 4, 5, 7]), 2, r.range(1, 10 ** 6), ev, 2, g_small, hist=r.choice(["c", "k", "p"]),
+                        cfg=",".join(mix), tag="cfg-mix")
+            # (d) the planner instance is given a NEW problem definition: after clear() (every planner), and without it for the
+            # multi-query roadmap planners; another objective (O/o) or the reversed query (R/r)
+            obj = "len" if not general else r.choice(["len", "sci", "work"])
+            job(planner, obj, 1, "def", r.choice([0, 1, 3, 4]), 2, r.range(1, 10 ** 6), ev, 3, g_small, hist=r.choice(["OR", "RO", "Oc", "cO", "Rc"]), tag="reuse-clear")
+            job(planner, "dublen", 0, "def", r.choice([0, 1]), 3, r.range(1, 10 ** 6), min(ev, 300), 2, f2bits(0.1), hist=r.choice(["O", "R"]), tag="reuse-clear")
+            if planner in ROADMAP:
+                for hist in (["o", "ro"], ["r", "or"])[r.below(2)]:
+                    job(planner, r.choice(["len", "sci", "work", "multi"]) if general else "len", 1, "def", r.choice([0, 1, 3, 4]), 2,
+                        r.range(1, 10 ** 6), ev, 1 + len(hist), g_small, hist=hist, tag="reuse-multiquery")
+                job(planner, "dublen", 0, "def", r.choice([0, 1]), 3, r.range(1, 10 ** 6), min(ev, 300), 3, f2bits(0.1), hist=r.choice(["or", "ro"]),
+                    tag="reuse-multiquery")
+            if planner in FROMDATA:
+                # the roadmap exported with getPlannerData() and loaded into a fresh planner (public constructor)
+                for hist, obj in (("d", "len"), (r.choice(["dc", "cd", "dr"]), r.choice(["sci", "work", "multi"])), (r.choice(["do", "od", "dO"]), "len")):
+                    job(planner, obj, 1, r.choice(["def", "inf"]), r.choice([0, 1, 3, 4]), 2, r.range(1, 10 ** 6), ev, 1 + len(hist), g_small, hist=hist,
+                        tag="reuse-fromdata")
     return jobs
 
 
 def job_line(j):
-    return "run %s %s %d %s %d %d %d %d %d %s %s" % (j["planner"], j["obj"], j["field"], j["thr"], j["env"], j["dim"], j["seed"], j["evals"],
+    base = "run %s %s %d %s %d %d %d %d %d %s %s" % (j["planner"], j["obj"], j["field"], j["thr"], j["env"], j["dim"], j["seed"], j["evals"],
                                                       j["solves"], j["gthr"], j.get("hist") or str(j.get("clear", 0)))
+    return base + (" " + j["cfg"] if j.get("cfg") else "")
 
 
 RUN_ENV = {"ASAN_OPTIONS": "detect_leaks=0:abort_on_error=0:exitcode=99"}   # planner leaks are not C04's subject
@@ -842,6 +951,11 @@ def judge_runs(ck, hbin, jobs):
             ck.count("run-with-clearSolutionPaths")
         if job.get("hist"):
             ck.count("run-history:" + job["hist"])
+        if job.get("tag"):
+            ck.count("run-kind:" + job["tag"])
+        for kv in (job.get("cfg") or "").split(","):
+            if kv:
+                ck.count("run-cfg:" + kv.split("=")[0])
         if out is None:
             ck.count("run-timeout:" + job["planner"])
             ck.notes.append("run timed out (no verdict): " + job_line(job))
@@ -850,7 +964,8 @@ def judge_runs(ck, hbin, jobs):
         fails, stats, orders = oracle_run(job, out)
         ck.case(job_line(job), stats["solutions"] >= 1)
         for k in ("solutions", "stored", "unstored", "approx", "optimized", "snapshots", "solves", "mixed_sets", "stored_worse", "endpoint_mismatch",
-                  "stored_equal", "stored_inf_deferred", "approx_stored", "clears", "planner_clears", "regress_after_clear", "approx_only_solves"):
+                  "stored_equal", "stored_inf_deferred", "approx_stored", "clears", "planner_clears", "regress_after_clear", "approx_only_solves",
+                  "cfg_applied", "cfg_rejected", "fromdata", "fromdata_unsupported", "newqueries"):
             ck.count("run-" + k, stats[k])
         if stats["solutions"] == 0:
             ck.count("run-nosolution:" + job["planner"])
@@ -1301,7 +1416,9 @@ def run(ck):
         if not judge_AB(ck, hbin, script, tag, pre):
             bad += 1
     ck.log("parts A/B done (%d scripts)" % ck.traces_validated)
-    jobs = make_jobs(ck, ck.rng.fork("runs"))
+    params = load_params(ck, hbin)
+    ck.extra_cov["planner_params_driven"] = {k: [p[0] for p in v] for k, v in params.items()}
+    jobs = make_jobs(ck, ck.rng.fork("runs"), params)
     judge_runs(ck, hbin, jobs)
     fjobs = make_fmt_jobs(ck, ck.rng.fork("fmt"))
     judge_fmt(ck, hbin, fjobs)
